@@ -156,6 +156,46 @@ fn main() {
         Some("self") => {
             let what = args.get(2).map(|s| s.as_str()).unwrap_or("");
             match what {
+                "harvest-edges" => {
+                    // single-client histories with the lock-order harvest on: prints every edge against the lock order
+                    let runs: u64 = args.get(3).and_then(|s| s.parse().ok()).unwrap_or(40_000);
+                    let spec = check::CheckSpec { prop: "C15", thorough: false, worker_cmd: "hist-worker", total: runs, level: "exploration", rule: "", assumptions: vec![] };
+                    let (total, crashes) = check::spawn_workers(&spec, check::base_seed());
+                    for c in crashes {
+                        eprintln!("crash: {c:?}");
+                    }
+                    let mut n = 0;
+                    for v in total.violations.values() {
+                        if v.prop == "C15E" && !conc::edge_conforms(&v.sig) {
+                            println!("{:8} {}", v.count, v.sig);
+                            n += 1;
+                        }
+                    }
+                    eprintln!("{} runs, {n} edges against the lock order", total.runs);
+                }
+                "confirm-edges" => {
+                    // for every harvested edge against the lock order: try to produce a concrete deadlock
+                    let runs: u64 = args.get(3).and_then(|s| s.parse().ok()).unwrap_or(40_000);
+                    let spec = check::CheckSpec { prop: "C15", thorough: false, worker_cmd: "hist-worker", total: runs, level: "exploration", rule: "", assumptions: vec![] };
+                    let (total, _) = check::spawn_workers(&spec, check::base_seed());
+                    let (mut yes, mut no) = (0, 0);
+                    for v in total.violations.values() {
+                        if v.prop == "C15E" && !conc::edge_conforms(&v.sig) {
+                            let t0 = std::time::Instant::now();
+                            match conc_check::confirm_edge(&v.sig, v.first_seed, false) {
+                                Some(p) => {
+                                    yes += 1;
+                                    println!("confirmed   {} ({:.1}s) {}", v.sig, t0.elapsed().as_secs_f64(), p.display());
+                                }
+                                None => {
+                                    no += 1;
+                                    println!("unconfirmed {} ({:.1}s)", v.sig, t0.elapsed().as_secs_f64());
+                                }
+                            }
+                        }
+                    }
+                    eprintln!("{yes} confirmed, {no} unconfirmed");
+                }
                 "determinism" => {
                     let n: u64 = args.get(3).and_then(|s| s.parse().ok()).unwrap_or(600);
                     let exe = std::env::current_exe().unwrap();
